@@ -1,10 +1,10 @@
 (* GroupProofs8.v — engine G, part 8 (C15): the pipeline under read faults.
    For EVERY fault oracle (path-specific ones included): nothing is duplicated, content classes are never split
    among the files that are still present, and a class none of whose members ever fails is treated exactly as in a
-   fault-free run (reported iff it qualifies, as exactly the class).  For inode-determined fault oracles a file
-   whose read failed at a stage is in no group that was keyed by that stage.  K5: with a path-specific failure
-   on the representative of a hard-link run the other links of the inode are dropped as well. *)
-From FV Require Import Base ListLib GroupModel GroupProofs GroupProofs2 GroupProofs3.
+   fault-free run (reported iff it qualifies, as exactly the class).  Since the repair of K5 (a run of one inode tries
+   its members in turn and only drops the members whose own read failed) a file that can itself be read at every
+   stage is never lost, whatever happens to other paths — of its inode or of other files. *)
+From FV Require Import Base ListLib GroupModel GroupProofs GroupProofs2 GroupProofs3 GroupProofs6.
 From Coq Require Import Permutation.
 Open Scope N_scope.
 
@@ -51,9 +51,14 @@ Section Faulty.
   (* no class is split among the files present *)
   Definition invS (gs : list group) : Prop :=
     forall g g' f f', In g gs -> In g' gs -> In f (gfiles g) -> In f' (gfiles g') -> fdata f = fdata f' -> g = g'.
-  (* classes without failing members are complete *)
+  (* this path can be read at every stage *)
+  Definition readable (f : file) : Prop := forall st, fails n st f = false.
+  (* a readable file of the class of a present file is present in the same group *)
   Definition invBc (gs : list group) : Prop :=
-    forall g f f', In g gs -> In f (gfiles g) -> clean f -> ok f' -> fdata f' = fdata f -> In f' (gfiles g).
+    forall g f f', In g gs -> In f (gfiles g) -> ok f' -> readable f' -> fdata f' = fdata f -> In f' (gfiles g).
+
+  Lemma clean_readable f x : clean f -> ok x -> fdata x = fdata f -> readable x.
+  Proof. intros Hc Hx E st. apply Hc; auto. Qed.
 
   Lemma clean_class f f' : clean f -> fdata f' = fdata f -> clean f'.
   Proof. intros Hc E x st Hx Ex. apply Hc; auto. congruence. Qed.
@@ -71,7 +76,7 @@ Section Faulty.
     intros HS HB. split.
     - intros g g' f f' Hg Hg' Hf Hf' E. apply in_map_iff in Hg, Hg'. destruct Hg as (g0 & <- & Hg0). destruct Hg' as (g0' & <- & Hg0').
       cbn [sort_group_by_id gfiles] in *. apply sort_by_id_in1 in Hf, Hf'. f_equal. eapply HS; eauto.
-    - intros g f f' Hg Hf Hc Hok E. apply in_map_iff in Hg. destruct Hg as (g0 & <- & Hg0). cbn [sort_group_by_id gfiles] in *.
+    - intros g f f' Hg Hf Hok Hr E. apply in_map_iff in Hg. destruct Hg as (g0 & <- & Hg0). cbn [sort_group_by_id gfiles] in *.
       apply sort_by_id_in. apply sort_by_id_in1 in Hf. eapply HB; eauto.
   Qed.
 
@@ -107,16 +112,22 @@ Section Faulty.
 
     Lemma frun_sub run : run_ok scanned run -> exists lx, Permutation (map snd (hash_run hf run) ++ lx) (map snd run).
     Proof.
-      intros [Hin Hh]. destruct run as [|[old rep] tl]; [exists []; reflexivity|].
-      unfold hash_run. destruct (hf rep old) as [[h len]|] eqn:E.
-      - exists []. rewrite app_nil_r, map_map. cbn [snd].
-        destruct (hf_some _ _ _ _ E) as (_ & _ & ->).
+      intros [Hin Hh]. destruct run as [|[old hd] tl]; [exists []; reflexivity|].
+      change (hash_run hf ((old, hd) :: tl)) with (hash_from hf old ((old, hd) :: tl)).
+      destruct (hash_from_spec hf old ((old, hd) :: tl)) as [[_ E]|(pre0 & rep & suf & h & len & E & _ & Hr & E0)].
+      - exists (map snd ((old, hd) :: tl)). rewrite E. reflexivity.
+      - exists (map snd pre0). rewrite E0.
+        apply Permutation_trans with (map snd (pre0 ++ rep :: suf)); [|rewrite <- E; reflexivity].
+        rewrite map_app, map_map. cbn [snd].
+        destruct (hf_some _ _ _ _ Hr) as (_ & _ & ->).
+        assert (Hsub : forall y, In y (rep :: suf) -> In y ((old, hd) :: tl)).
+        { intros y Hy. rewrite E. apply in_or_app. right. exact Hy. }
+        rewrite Permutation_app_comm. apply Permutation_app_head.
         erewrite map_ext_in; [reflexivity|]. intros x Hx. cbn beta.
-        specialize (Hh x Hx). unfold item_same_id in Hh. cbn [snd] in Hh. apply same_id_spec in Hh.
-        destruct (Hids rep (snd x)) as [_ El]; auto.
-        + apply (Hin (old, rep)). left; auto.
-        + rewrite El. apply set_len_same.
-      - exists (map snd ((old, rep) :: tl)). reflexivity.
+        pose proof (Hh x (Hsub x Hx)) as H1. pose proof (Hh rep (Hsub rep (or_introl eq_refl))) as H2.
+        unfold item_same_id in H1, H2. cbn [snd] in H1, H2. apply same_id_spec in H1, H2.
+        destruct (Hids (snd rep) (snd x)) as [_ El]; [apply Hin, Hsub; left; auto|apply Hin, Hsub; auto|congruence|].
+        rewrite El. apply set_len_same.
     Qed.
 
     Lemma fhashed_sub : exists l', Permutation (map snd (hashed_of n st hf items) ++ l') (map snd items).
@@ -177,24 +188,34 @@ Section Faulty.
       exists g0, In g0 gs /\ pre g0 = true /\ In f (gfiles g0) /\ h = newh f (ghash g0).
     Proof.
       intros Hin. apply (in_hashed _ _ _ _ _ _ Hnd) in Hin.
-      destruct Hin as (old & rep & [h0 f0] & len & Hrep & Hx & Hi & _ & Hh & ->). cbn [snd] in *.
+      destruct Hin as (old & hd & oldr & rep & [h0 f0] & len & Hhd & Hrep & Hx & Hih & _ & Hi & _ & Hh & ->). cbn [snd] in *.
       destruct (hf_some _ _ _ _ Hh) as (_ & -> & ->).
       apply in_items_of in Hrep. destruct Hrep as (g1 & Hg1 & -> & Hrep).
+      apply in_items_of in Hhd. destruct Hhd as (gh & Hgh & -> & Hhd).
       apply in_items_of in Hx. destruct Hx as (g0 & Hg0 & -> & Hf0).
-      apply filter_In in Hg1, Hg0. destruct Hg1 as [Hg1 _]. destruct Hg0 as [Hg0 Hp0].
+      apply filter_In in Hg1, Hg0, Hgh. destruct Hg1 as [Hg1 _]. destruct Hg0 as [Hg0 Hp0]. destruct Hgh as [Hgh _].
       destruct (frep_same_group g0 f0 g1 rep) as (-> & Ed & El & Hokr & Hokf); auto.
+      destruct (frep_same_group g0 f0 gh hd) as (-> & _); auto; [congruence|].
       rewrite El, set_len_same. exists g0. repeat split; auto.
     Qed.
 
-    (* a file all of whose hard links can be read at this stage is hashed *)
-    Lemma fhashed_has g0 f : In g0 gs -> pre g0 = true -> In f (gfiles g0) ->
-      (forall x, ok x -> fid x = fid f -> fails n st x = false) ->
+    (* every file that comes out of the hashing shares its inode with a path that was read successfully at this stage *)
+    Lemma fhashed_rep h f : In (h, f) (hashed_of n st hf items) ->
+      exists rep, In rep scanned /\ fid rep = fid f /\ fails n st rep = false.
+    Proof.
+      intros Hin. apply (in_hashed _ _ _ _ _ _ Hnd) in Hin.
+      destruct Hin as (old & hd & oldr & rep & [h0 f0] & len & _ & Hrep & _ & _ & _ & Hi & _ & Hh & ->). cbn [snd] in *.
+      destruct (hf_some _ _ _ _ Hh) as (Hnf & _ & _). exists rep. split; [apply (fitems_scanned (oldr, rep) Hrep)|].
+      split; auto.
+    Qed.
+
+    (* a file that can itself be read at this stage is hashed, whatever happens to the other paths of its inode (K5) *)
+    Lemma fhashed_has g0 f : In g0 gs -> pre g0 = true -> In f (gfiles g0) -> fails n st f = false ->
       In (newh f (ghash g0), f) (hashed_of n st hf items).
     Proof.
       intros Hg0 Hp0 Hf Hnf.
       assert (Hx : In (ghash g0, f) items).
       { apply in_items_of. exists g0. split; [apply filter_In; auto|auto]. }
-      (* the run of f *)
       unfold hashed_of.
       pose proof (group_by_complete N.leb N.eqb (fun x : item => fdev (snd x)) N_eqb_spec' (ghash g0, f) items Hx) as Hb.
       cbn [snd] in Hb.
@@ -209,17 +230,32 @@ Section Faulty.
       assert (Hok : run_ok scanned r).
       { apply (runs_ok scanned (order n st (fdev f) its)); auto. intros y Hy. apply fitems_scanned.
         apply (Permutation_in _ (proj1 Hnd st (fdev f) its)) in Hy. apply filter_In in Hy. tauto. }
-      destruct r as [|[old rep] tl]; [destruct Hxr|].
-      assert (Hrepi : In (old, rep) items) by (apply Hsub; left; auto).
-      assert (Hid : fid rep = fid f).
-      { destruct Hok as [_ Hh]. specialize (Hh _ Hxr). apply same_id_spec in Hh. exact Hh. }
-      apply in_items_of in Hrepi. destruct Hrepi as (g1 & Hg1 & -> & Hrep). apply filter_In in Hg1. destruct Hg1 as [Hg1 _].
-      destruct (frep_same_group g0 f g1 rep) as (-> & Ed & El & Hokr & Hokf); auto.
+      destruct r as [|[old hd] tl]; [destruct Hxr|].
+      assert (Hidm : forall y, In y ((old, hd) :: tl) -> fid (snd y) = fid f).
+      { intros y Hy. destruct Hok as [_ Hh]. pose proof (Hh _ Hxr) as H1. pose proof (Hh _ Hy) as H2.
+        apply same_id_spec in H1, H2. cbn [snd] in *. congruence. }
+      (* the old hash handed to every member is the one of the head, whose group is the group of f *)
+      assert (Hold : old = ghash g0).
+      { pose proof (Hsub _ (or_introl eq_refl)) as Hhi. apply in_items_of in Hhi. destruct Hhi as (gh & Hgh & -> & Hhd).
+        apply filter_In in Hgh. destruct Hgh as [Hgh _].
+        destruct (frep_same_group g0 f gh hd) as (-> & _); auto. apply (Hidm (ghash gh, hd)). left; auto. }
+      subst old.
       apply in_flat_map. exists (fdev f, its). split; auto. cbn [fst snd].
-      apply in_flat_map. exists ((ghash g0, rep) :: tl). split; auto.
-      unfold hash_run. rewrite Hhf, (Hnf rep Hokr Hid).
-      apply in_map_iff. exists (ghash g0, f). split; auto. cbn [snd].
-      rewrite El, set_len_same, (Hclass rep f (ghash g0) Hokr Hokf Ed). reflexivity.
+      apply in_flat_map. exists ((ghash g0, hd) :: tl). split; auto.
+      change (hash_run hf ((ghash g0, hd) :: tl)) with (hash_from hf (ghash g0) ((ghash g0, hd) :: tl)).
+      destruct (hash_from_spec hf (ghash g0) ((ghash g0, hd) :: tl)) as [[Hall _]|(pre0 & rep & suf & h & len & E & Hpre & Hrp & E0)].
+      - specialize (Hall _ Hxr). cbn [snd] in Hall. rewrite Hhf, Hnf in Hall. discriminate.
+      - rewrite E0. assert (Hxr' : In (ghash g0, f) (pre0 ++ rep :: suf)) by (rewrite <- E; exact Hxr).
+        apply in_app_or in Hxr'. destruct Hxr' as [Hxp|Hxs].
+        + specialize (Hpre _ Hxp). cbn [snd] in Hpre. rewrite Hhf, Hnf in Hpre. discriminate.
+        + apply in_map_iff. exists (ghash g0, f). split; auto. cbn [snd].
+          destruct (hf_some _ _ _ _ Hrp) as (_ & -> & ->).
+          pose proof (in_or_app pre0 (rep :: suf) rep (or_intror (or_introl eq_refl))) as Hrin. rewrite <- E in Hrin.
+          pose proof (Hsub _ Hrin) as Hri. destruct rep as [oldr rp]. cbn [snd] in *.
+          apply in_items_of in Hri. destruct Hri as (g1 & Hg1 & -> & Hrp1). apply filter_In in Hg1. destruct Hg1 as [Hg1 _].
+          destruct (frep_same_group g0 f g1 rp) as (-> & Ed & El & Hokr & Hokf); auto.
+          { apply (Hidm (ghash g1, rp)); auto. }
+          rewrite El, set_len_same, (Hclass rp f (ghash g0) Hokr Hokf Ed). reflexivity.
     Qed.
 
     Lemma regroup_same_key l g g' : In g (regroup l) -> In g' (regroup l) -> glen g = glen g' -> ghash g = ghash g' -> g = g'.
@@ -269,14 +305,12 @@ Section Faulty.
 
     Lemma fstep_Bc : invBc raw.
     Proof.
-      intros g f f' Hg Hf Hc Hok' E. destruct HA as [A1 A2].
+      intros g f f' Hg Hf Hok' Hr' E. destruct HA as [A1 A2].
       destruct (raw_cases g Hg) as [Hr|[Hin Hp]].
       - destruct (regrouped_key g f Hr Hf) as (g0 & Hg0 & Hp0 & Hf0 & Eh & El).
         assert (Hokf : ok f) by (apply A2; apply (all_files_in gs g0 f); auto).
         assert (Hf0' : In f' (gfiles g0)) by (eapply HBc; eauto).
-        assert (Hin' : In (newh f' (ghash g0), f') (hashed_of n st hf items)).
-        { apply fhashed_has; auto. intros x Hx Ex. apply Hc; auto.
-          destruct (Hids x f' (proj1 Hx) (proj1 Hok') Ex) as [Ed _]. congruence. }
+        assert (Hin' : In (newh f' (ghash g0), f') (hashed_of n st hf items)) by (apply fhashed_has; auto).
         rewrite (Hclass f' f (ghash g0) Hok' Hokf E), <- Eh in Hin'.
         apply (regroup_complete _ g (ghash g) f' Hr eq_refl).
         + rewrite El. rewrite (Hlen f (proj1 Hokf)), (Hlen f' (proj1 Hok')), E. reflexivity.
@@ -284,15 +318,13 @@ Section Faulty.
       - eapply HBc; eauto.
     Qed.
 
-    (* members of classes without failing members are never lost *)
-    Lemma fstep_keep_clean f : In f (all_files gs) -> clean f -> In f (all_files raw).
+    (* a file that can be read at this stage is never lost *)
+    Lemma fstep_keep_readable f : In f (all_files gs) -> fails n st f = false -> In f (all_files raw).
     Proof.
       intros Hf Hc. destruct HA as [A1 A2]. pose proof (A2 f Hf) as Hokf.
       apply in_all_files in Hf. destruct Hf as (g0 & Hg0 & Hf0).
       destruct (pre g0) eqn:Hp0.
-      - assert (Hin : In (newh f (ghash g0), f) (hashed_of n st hf items)).
-        { apply fhashed_has; auto. intros x Hx Ex. apply Hc; auto.
-          destruct (Hids x f (proj1 Hx) (proj1 Hokf) Ex) as [Ed _]. exact Ed. }
+      - assert (Hin : In (newh f (ghash g0), f) (hashed_of n st hf items)) by (apply fhashed_has; auto).
         unfold raw, rehash_raw. rewrite all_files_app. apply in_or_app. left.
         eapply Permutation_in; [symmetry; apply regroup_files|]. apply in_map_iff. exists (newh f (ghash g0), f). split; auto.
         eapply Permutation_in; [symmetry; apply (proj2 Hnd st _)|]. exact Hin.
@@ -304,7 +336,7 @@ Section Faulty.
       In (h, f) (hashed_of n st hf items) -> fails n st f = false.
     Proof.
       intros Hdet Hin. apply (in_hashed _ _ _ _ _ _ Hnd) in Hin.
-      destruct Hin as (old & rep & [h0 f0] & len & Hrep & Hx & Hi & _ & Hh & ->). cbn [snd] in *.
+      destruct Hin as (old & hd & oldr & rep & [h0 f0] & len & _ & Hrep & Hx & _ & _ & Hi & _ & Hh & ->). cbn [snd] in *.
       destruct (hf_some _ _ _ _ Hh) as (Hnf & _ & _). rewrite <- Hnf. apply Hdet. rewrite set_len_fid. auto.
     Qed.
   End FStep.
@@ -326,8 +358,13 @@ Section Faulty.
   Lemma fpipeline_is_g4 : pipeline o c n scanned = g4.
   Proof. unfold pipeline. rewrite Htr, Hskip. reflexivity. Qed.
 
+  (* the readable members R of the class cl of f are enough for the filter: more than rf replicas among them
+     (over-replication search), resp. fewer than k replicas in the whole class (under-replication search) *)
+  Definition qual_r (f : file) : Prop :=
+    exists cl R, is_class c scanned f cl /\ NoDup R /\ (forall x, In x R <-> In x cl /\ readable x) /\
+      match repl c with Over rf => rf < subgroup_count c R | Under k => subgroup_count c cl < k end.
   Definition invCc (gs : list group) : Prop :=
-    forall f, ok f -> clean f -> qualifies c scanned f -> exists g, In g gs /\ In f (gfiles g).
+    forall f, ok f -> readable f -> qual_r f -> exists g, In g gs /\ In f (gfiles g).
 
   Lemma invA_sort gs : invA gs -> invA (map sort_group_by_id gs).
   Proof.
@@ -355,7 +392,7 @@ Section Faulty.
     (forall f f' old, ok f -> ok f' -> fdata f = fdata f' -> newh f old = newh f' old) ->
     invA gs -> invS gs -> invBc gs ->
     let raw := rehash_raw n st pre hf (map sort_group_by_id gs) in
-    invA raw /\ invS raw /\ invBc raw /\ (forall f, In f (all_files gs) -> clean f -> In f (all_files raw)) /\
+    invA raw /\ invS raw /\ invBc raw /\ (forall f, In f (all_files gs) -> readable f -> In f (all_files raw)) /\
     invA (filter post raw) /\ invS (filter post raw) /\ invBc (filter post raw).
   Proof.
     intros Hhf Hcl HA HS HB raw.
@@ -365,13 +402,24 @@ Section Faulty.
     pose proof (fstep_Bc st pre hf newh Hhf Hcl _ HA' HS' HB') as B.
     destruct (invSBc_filter post _ Sx B) as [S2 B2].
     split; [exact A|]. split; [exact Sx|]. split; [exact B|]. split.
-    - intros x Hx Hc. apply (fstep_keep_clean st pre hf newh Hhf Hcl _ HA' HS'); auto.
+    - intros x Hx Hc. apply (fstep_keep_readable st pre hf newh Hhf Hcl _ HA' HS'); auto.
       eapply Permutation_in; [symmetry; apply all_files_sort|auto].
     - split; [exact (invA_filter post _ A)|]. split; [exact S2|exact B2].
   Qed.
 
-  Lemma class_in_group gs g f cl : invBc gs -> In g gs -> In f (gfiles g) -> clean f -> is_class c scanned f cl -> incl cl (gfiles g).
-  Proof. intros HB Hg Hf Hc [_ Hcl] x Hx. apply Hcl in Hx. destruct Hx as [Hok E]. eapply HB; eauto. Qed.
+  Lemma R_in_group gs g f cl R : invBc gs -> In g gs -> In f (gfiles g) -> is_class c scanned f cl ->
+    (forall x, In x R <-> In x cl /\ readable x) -> incl R (gfiles g).
+  Proof.
+    intros HB Hg Hf [_ Hcl] HR x Hx. apply HR in Hx. destruct Hx as [Hx Hr]. apply Hcl in Hx. destruct Hx as [Hok E].
+    eapply HB; eauto.
+  Qed.
+
+  Lemma matches_of_R g cl R : NoDup R -> incl R (gfiles g) ->
+    match repl c with Over rf => rf < subgroup_count c R | Under k => subgroup_count c cl < k end -> matches c g = true.
+  Proof.
+    intros N Hi Hq. unfold matches. destruct (repl c) as [rf|k]; auto.
+    apply N.ltb_lt. pose proof (subgroup_count_mono c R (gfiles g) N Hi). lia.
+  Qed.
 
   Lemma fstage_C st pre hf newh gs :
     (forall f old, hf f old = if fails n st f then None else Some (newh f old, flen f)) ->
@@ -379,19 +427,35 @@ Section Faulty.
     invA gs -> invS gs -> invBc gs -> invCc gs ->
     invCc (rehash n st pre (matches c) hf (map sort_group_by_id gs)).
   Proof.
-    intros Hhf Hcl HA HS HB HC f Hok Hc (cl & Hcls & Hs).
+    intros Hhf Hcl HA HS HB HC f Hok Hr (cl & R & Hcls & NR & HR & Hq).
     destruct (fstage st pre (matches c) hf newh gs Hhf Hcl HA HS HB) as (A & Sx & B & Hkeep & _).
-    destruct (HC f Hok Hc (ex_intro _ cl (conj Hcls Hs))) as (g0 & Hg0 & Hf0).
-    pose proof (Hkeep f (all_files_in gs g0 f Hg0 Hf0) Hc) as Hfr. apply in_all_files in Hfr. destruct Hfr as (g & Hg & Hf).
+    destruct (HC f Hok Hr (ex_intro _ cl (ex_intro _ R (conj Hcls (conj NR (conj HR Hq)))))) as (g0 & Hg0 & Hf0).
+    pose proof (Hkeep f (all_files_in gs g0 f Hg0 Hf0) Hr) as Hfr. apply in_all_files in Hfr. destruct Hfr as (g & Hg & Hf).
     exists g. split; auto. rewrite rehash_unfold. apply filter_In. split; auto.
-    apply (matches_of_class c cl g (proj1 Hcls) Hs). apply (class_in_group _ g f cl B Hg Hf Hc Hcls).
+    apply (matches_of_R g cl R NR); auto. apply (R_in_group _ g f cl R B Hg Hf Hcls HR).
   Qed.
 
   Lemma fg1_inv : invA g1 /\ invS g1 /\ invBc g1 /\ invCc g1.
   Proof.
     destruct (stage1_inv c scanned Hlen Hpaths) as (A & B & L & C). split; auto. split; [apply invB_invS; auto|]. split.
-    - intros g f f' Hg Hf _ Hok E. eapply B; eauto.
-    - intros f Hok _ Hq. apply C; auto.
+    - intros g f f' Hg Hf Hok _ E. eapply B; eauto.
+    - intros f Hok Hr (cl & R & Hcls & NR & HR & Hq).
+      (* the size group of f holds the whole class *)
+      destruct (G0_has c scanned f Hok) as (g0 & Hg0 & El & Hall).
+      assert (Hi0 : incl cl (gfiles g0)).
+      { intros x Hx. apply (proj2 Hcls) in Hx. destruct Hx as [Hokx E]. apply Hall; auto. apply (same_data_len c scanned Hlen); auto. }
+      assert (HiR : incl R (gfiles g0)) by (intros x Hx; apply Hi0; apply HR in Hx; tauto).
+      assert (Hm0 : matches c g0 = true) by (apply (matches_of_R g0 cl R NR HiR Hq)).
+      assert (Hwp : wf_paths (gfiles g0)).
+      { intros a b Ha Hb. apply Hpaths; [destruct (G0_member c scanned g0 a Hg0 Ha) as [[? _] _]|destruct (G0_member c scanned g0 b Hg0 Hb) as [[? _] _]]; auto. }
+      assert (Hi1 : incl R (gfiles (dedup_group g0))).
+      { intros x Hx. cbn [dedup_group gfiles]. apply deduplicate_keeps; auto. }
+      exists (dedup_group g0). split.
+      + unfold g1. change (remove_same_files c (group_by_size c (filter (size_ok c) scanned)))
+          with (filter (matches c) (map dedup_group (filter (matches c)
+                 (map (fun kv : N * list file => mkgroup (fst kv) hash0 (snd kv)) (group_by N.leb N.eqb flen (filter (size_ok c) scanned)))))).
+        apply filter_In. split; [apply in_map; apply filter_In; auto|]. apply (matches_of_R _ cl R NR Hi1 Hq).
+      + cbn [dedup_group gfiles]. apply deduplicate_keeps; [exact Hwp|]. apply Hi0. apply (proj2 Hcls). split; auto.
   Qed.
   Lemma fg2_inv : invA g2 /\ invS g2 /\ invBc g2 /\ invCc g2.
   Proof.
@@ -414,7 +478,7 @@ Section Faulty.
     unfold g3. rewrite rehash_unfold in *. auto.
   Qed.
 
-  Lemma fraw4_inv : invA raw4 /\ invS raw4 /\ invBc raw4 /\ (forall f, In f (all_files g3) -> clean f -> In f (all_files raw4)).
+  Lemma fraw4_inv : invA raw4 /\ invS raw4 /\ invBc raw4 /\ (forall f, In f (all_files g3) -> readable f -> In f (all_files raw4)).
   Proof.
     destruct fg3_inv as (A & Sx & B & C).
     destruct (fstage StContents (pre_contents P) (matches_strictly c) (hf_contents o n) (fun f _ => Hfull H f) g3) as (A4 & S4 & B4 & K4 & _); auto.
@@ -435,13 +499,13 @@ Section Faulty.
     apply (I3_sound H c scanned Hids Hlen Hcf P S g (suffix_len_of_cands c _) (fraw4_I3 g Hg) f f' Hf Hf').
   Qed.
 
-  Lemma fraw4_class g f : In g raw4 -> In f (gfiles g) -> clean f -> is_class c scanned f (gfiles g).
+  (* members of a group of the last stage are members of the class; readable members of the class are in it *)
+  Lemma fraw4_bounds g f cl : In g raw4 -> In f (gfiles g) -> is_class c scanned f cl ->
+    NoDup (gfiles g) /\ incl (gfiles g) cl /\ (forall x, In x cl -> readable x -> In x (gfiles g)).
   Proof.
-    intros Hg Hf Hc. destruct fraw4_inv as ([A1 A2] & _ & B & _). split.
-    - apply (NoDup_flat_map_member gfiles raw4 g A1 Hg).
-    - intros x. split.
-      + intros Hx. split; [apply A2; apply (all_files_in raw4 g x); auto|]. apply (fraw4_same_data g x f Hg Hx Hf).
-      + intros [Hok E]. eapply B; eauto.
+    intros Hg Hf [Ncl Hcl]. destruct fraw4_inv as ([A1 A2] & _ & B & _). split; [apply (NoDup_flat_map_member gfiles raw4 g A1 Hg)|]. split.
+    - intros x Hx. apply Hcl. split; [apply A2; apply (all_files_in raw4 g x); auto|]. apply (fraw4_same_data g x f Hg Hx Hf).
+    - intros x Hx Hr. apply Hcl in Hx. destruct Hx as [Hok E]. eapply B; eauto.
   Qed.
 
   Lemma is_class_strict f cl cl' : is_class c scanned f cl -> is_class c scanned f cl' ->
@@ -451,52 +515,77 @@ Section Faulty.
     intros x. cbn [gfiles]. rewrite H1, H2. tauto.
   Qed.
 
-  (* C15: a class without failing members is reported exactly as without faults, whatever fails elsewhere *)
-  Theorem c15_isolated_clean :
+  Lemma finalize_g4 g : In g (finalize c g4) ->
+    exists g0, In g0 raw4 /\ matches_strictly c g0 = true /\ Permutation (gfiles g) (gfiles g0).
+  Proof. intros Hg. apply finalize_in in Hg. destruct Hg as (g0 & Hg0 & _ & _ & Hp). apply filter_In in Hg0. exists g0. tauto. Qed.
+
+  (* C15, K5 repaired: a file that can itself be read at every stage is never lost because of any other failure *)
+  Theorem c15_readable :
     let out := group_files H T c n scanned in
-    (forall f, ok f -> clean f ->
-       ((exists g, In g out /\ In f (gfiles g)) <-> qualifies c scanned f) /\
-       (forall g, In g out -> In f (gfiles g) -> is_class c scanned f (gfiles g))) /\
-    (* and for all classes: no file twice, only scanned files, no class split among the files reported *)
+    (forall f, ok f -> readable f ->
+       (qual_r f -> exists g, In g out /\ In f (gfiles g)) /\
+       (forall g, In g out -> In f (gfiles g) ->
+          (forall x, ok x -> readable x -> fdata x = fdata f -> In x (gfiles g)) /\
+          (forall x, In x (gfiles g) -> ok x /\ fdata x = fdata f) /\ matches_strictly c g = true)) /\
     (NoDup (all_files out) /\ forall f, In f (all_files out) -> ok f) /\
     (forall g g' f f', In g out -> In g' out -> In f (gfiles g) -> In f' (gfiles g') -> fdata f = fdata f' -> g = g').
   Proof.
     intros out. unfold out, group_files, group_files_gen. fold o. rewrite fpipeline_is_g4.
     destruct fraw4_inv as (A & Sx & B & K). destruct fg3_inv as (A3 & S3 & B3 & C3).
-    pose proof (invA_filter (matches_strictly c) raw4 A) as [A41 A42]. fold g4 in A41, A42.
+    pose proof (invA_filter (matches_strictly c) raw4 A) as [A41 A42].
     assert (HND : NoDup (all_files (finalize c g4)) /\ forall f, In f (all_files (finalize c g4)) -> ok f).
     { split.
       - eapply Permutation_NoDup; [symmetry; apply all_files_finalize|exact A41].
       - intros f Hf. apply A42. eapply Permutation_in; [apply all_files_finalize|exact Hf]. }
-    assert (Hfin : forall g, In g (finalize c g4) -> exists g0, In g0 raw4 /\ matches_strictly c g0 = true /\ Permutation (gfiles g) (gfiles g0)).
-    { intros g Hg. apply finalize_in in Hg. destruct Hg as (g0 & Hg0 & _ & _ & Hp). apply filter_In in Hg0. exists g0. tauto. }
     split; [|split; [exact HND|]].
-    - intros f Hok Hc.
-      assert (Hcls : forall g, In g (finalize c g4) -> In f (gfiles g) -> is_class c scanned f (gfiles g) /\ qualifies c scanned f).
-      { intros g Hg Hf. destruct (Hfin g Hg) as (g0 & Hg0 & Hs & Hp).
-        assert (Hf0 : In f (gfiles g0)) by (eapply Permutation_in; eauto).
-        destruct (fraw4_class g0 f Hg0 Hf0 Hc) as [N0 Hc0].
-        assert (Hcl : is_class c scanned f (gfiles g)).
-        { split; [eapply Permutation_NoDup; [symmetry; exact Hp|auto]|].
-          intros x. rewrite <- Hc0. split; apply Permutation_in; [|symmetry]; auto. }
-        split; auto. exists (gfiles g0). split; [split; auto|]. exact Hs. }
-      split; [split|].
-      + intros (g & Hg & Hf). apply (Hcls g Hg Hf).
-      + intros (cl & Hcl & Hs).
-        destruct (C3 f Hok Hc (ex_intro _ cl (conj Hcl Hs))) as (g3' & Hg3' & Hf3).
-        pose proof (K f (all_files_in g3 g3' f Hg3' Hf3) Hc) as Hfr. apply in_all_files in Hfr. destruct Hfr as (g0 & Hg0 & Hf0).
+    - intros f Hok Hr. split.
+      + intros (cl & R & Hcls & NR & HR & Hq).
+        destruct (C3 f Hok Hr (ex_intro _ cl (ex_intro _ R (conj Hcls (conj NR (conj HR Hq)))))) as (g3' & Hg3' & Hf3).
+        pose proof (K f (all_files_in g3 g3' f Hg3' Hf3) Hr) as Hfr. apply in_all_files in Hfr. destruct Hfr as (g0 & Hg0 & Hf0).
+        destruct (fraw4_bounds g0 f cl Hg0 Hf0 Hcls) as (N0 & Hsub & Hsup).
         assert (Hg4 : In g0 g4).
-        { apply filter_In. split; auto. change (matches_strictly c g0) with (matches_strictly c (mkgroup 0 [] (gfiles g0))).
-          rewrite (is_class_strict f (gfiles g0) cl (fraw4_class g0 f Hg0 Hf0 Hc) Hcl). exact Hs. }
+        { apply filter_In. split; auto. unfold matches_strictly. destruct (repl c) as [rf|k].
+          - apply N.ltb_lt. assert (HiR : incl R (gfiles g0)) by (intros x Hx; apply HR in Hx; apply Hsup; tauto).
+            pose proof (subgroup_count_mono c R (gfiles g0) NR HiR). lia.
+          - apply N.ltb_lt. pose proof (subgroup_count_mono c (gfiles g0) cl N0 Hsub). lia. }
         destruct (finalize_has c g4 g0 Hg4) as (g & Hg & _ & _ & Hp). exists g. split; auto.
         eapply Permutation_in; [symmetry; exact Hp|auto].
-      + intros g Hg Hf. apply (Hcls g Hg Hf).
+      + intros g Hg Hf. destruct (finalize_g4 g Hg) as (g0 & Hg0 & Hs & Hp).
+        assert (Hf0 : In f (gfiles g0)) by (eapply Permutation_in; eauto).
+        destruct A as [A1 A2]. split; [|split].
+        * intros x Hx Hrx E. apply (Permutation_in x (Permutation_sym Hp)). eapply B; eauto.
+        * intros x Hx. apply (Permutation_in x Hp) in Hx. split; [apply A2; apply (all_files_in raw4 g0 x); auto|].
+          apply (fraw4_same_data g0 x f Hg0 Hx Hf0).
+        * unfold matches_strictly in *. rewrite (subgroup_count_perm_any c (gfiles g) (gfiles g0)); auto.
     - intros g g' f f' Hg Hg' Hf Hf' E.
-      destruct (Hfin g Hg) as (g0 & Hg0 & _ & Hp). destruct (Hfin g' Hg') as (g0' & Hg0' & _ & Hp').
+      destruct (finalize_g4 g Hg) as (g0 & Hg0 & _ & Hp). destruct (finalize_g4 g' Hg') as (g0' & Hg0' & _ & Hp').
       assert (g0 = g0') by (apply (Sx g0 g0' f f'); auto; eapply Permutation_in; eauto). subst g0'.
       destruct HND as [HN _].
       apply (NoDup_flat_map_unique gfiles _ g g' f HN Hg Hg' Hf).
       apply (Permutation_in f (Permutation_sym Hp')). apply (Permutation_in f Hp). exact Hf.
   Qed.
-End Faulty.
 
+  (* corollary: a class none of whose members ever fails is reported exactly as without faults *)
+  Theorem c15_isolated_clean :
+    let out := group_files H T c n scanned in
+    (forall f, ok f -> clean f ->
+       ((exists g, In g out /\ In f (gfiles g)) <-> qualifies c scanned f) /\
+       (forall g, In g out -> In f (gfiles g) -> is_class c scanned f (gfiles g))) /\
+    (NoDup (all_files out) /\ forall f, In f (all_files out) -> ok f) /\
+    (forall g g' f f', In g out -> In g' out -> In f (gfiles g) -> In f' (gfiles g') -> fdata f = fdata f' -> g = g').
+  Proof.
+    intros out. destruct c15_readable as (Hr & HND & HS). fold out in Hr, HND, HS. split; [|split; auto].
+    intros f Hok Hc.
+    assert (Hrf : readable f) by (apply (clean_readable f f Hc Hok eq_refl)).
+    destruct (Hr f Hok Hrf) as [Hq Hg].
+    assert (Hcls : forall g, In g out -> In f (gfiles g) -> is_class c scanned f (gfiles g)).
+    { intros g Hgo Hf. destruct (Hg g Hgo Hf) as (Hsup & Hsub & _). split.
+      - destruct HND as [HN _]. apply (NoDup_flat_map_member gfiles out g HN Hgo).
+      - intros x. split; [apply Hsub|]. intros [Hx E]. apply Hsup; auto. apply (clean_readable f x Hc Hx E). }
+    split; [split|exact Hcls].
+    - intros (g & Hgo & Hf). destruct (Hg g Hgo Hf) as (_ & _ & Hs). exists (gfiles g). split; [apply Hcls; auto|]. exact Hs.
+    - intros (cl & Hcl & Hs). apply Hq. exists cl, cl. split; auto. split; [apply Hcl|]. split.
+      + intros x. split; [intros Hx; split; auto|tauto]. apply (proj2 Hcl) in Hx. destruct Hx as [Hx E]. apply (clean_readable f x Hc Hx E).
+      + unfold matches_strictly in Hs. cbn [gfiles] in Hs. destruct (repl c); apply N.ltb_lt; exact Hs.
+  Qed.
+End Faulty.
